@@ -1,12 +1,15 @@
 #!/bin/bash
 # Re-check every property file (and everything it depends on) with Coq's independent checker and print the
-# axioms it finds.  Not part of the routine checks (about a minute and up to 4 GB per file); the result of the
-# last run is kept in docs/coqchk.txt.     usage: tools/coqchk_all.sh [Cxx ...]
+# axioms it finds.  Not part of the routine checks (about a minute and up to 4 GB per file; C17 takes an hour and a
+# half because its vm_compute sweeps are re-checked without the VM: its last result is kept in docs/coqchk_c17.txt and
+# it is only re-run when named explicitly).  Result of the last run: docs/coqchk.txt.
+# usage: tools/coqchk_all.sh [Cxx ...]
 cd "$(dirname "$(readlink -f "$0")")/../coq"
-props=${@:-$(ls Props/*.v | sed 's#Props/##; s#\.v##')}
+props=${@:-$(ls Props/*.v | sed 's#Props/##; s#\.v##' | grep -v '^C17$')}
 out=../docs/coqchk.txt
 : > "$out"
 for p in $props; do
   echo "=== PV.Props.$p" | tee -a "$out"
-  ( timeout 1800 coqchk -o -silent -Q . PV PV.Props.$p 2>&1 | sed -n '/CONTEXT SUMMARY/,$p' | grep -v "^$" ) | tee -a "$out"
+  ( timeout 9000 coqchk -o -silent -Q . PV PV.Props.$p 2>&1 | sed -n '/CONTEXT SUMMARY/,$p' | grep -v "^ *$" ) | tee -a "$out"
 done
+case " $props " in *" C17 "*) ;; *) cat ../docs/coqchk_c17.txt >> "$out";; esac
